@@ -54,6 +54,21 @@ def _one(case, rec, cid, p):
         rec.ev("Props", cid, p=pp, ok=True, cls="", **v)
     else:
         rec.ev("Props", cid, p=pp, ok=False, cls=type(v).__name__, cen=0, yoc=0, yod=0, doc=0, ysign=0, zsign=0, zha=0, zma=0, sod=0)
+    if case.get("own"):
+        from harness.common import TimePoint as _TP, tp_kwargs
+        ofmt = "+X" + DATES[case["p"]["rep"]][0] + "Thh:mm:ss+hh:mm"
+
+        def own():
+            p2 = _TP(dump_format=ofmt, **tp_kwargs(case["p"]))
+            s = str(p2)
+            q = parser(xd).parse(s)
+            return dict(text=render.codes(s), q=proj_tp(q), eq=bool(q == p2) and str(_TP(dump_format=ofmt, **tp_kwargs(case["p"]))) == s)
+        st, v = outcome(own)
+        if case["p"]["prec"] == "hms" and not case["p"].get("dec") and case["p"]["hh"] < 24:
+            if st == "ok":
+                rec.ev("DumpTrip", cid, p=pp, fmt=render.codes(ofmt), ok=True, cls="", **v)
+            else:
+                rec.ev("DumpTrip", cid, p=pp, fmt=render.codes(ofmt), ok=False, cls=type(v).__name__, text=[], q=pp, eq=False)
     for fmt in case.get("fmts", []):
         def g(fmt=fmt):
             d = _D.setdefault(xd, TimePointDumper(num_expanded_year_digits=xd))
@@ -124,7 +139,21 @@ def expand(job):
         # years at the edge of the dumper's range would be pushed out of it by a literal-zone format
         inner = (1 <= p["y"] <= 9998) if not p.get("xd") else abs(p["y"]) <= 10 ** (4 + p["xd"]) - 3
         fm = formats(rnd, p) if inner else formats(rnd, p, safe=True)
+        if rnd.random() < 0.03:
+            # a point with expanded digits in year -1 / 10000, a few minutes from year 0 / 9999 in UTC, dumped with a plain CCYY...Z format
+            if rnd.random() < 0.5:
+                n_, sod_, z_ = R.year_start(m, 0) - 1, 84600, (-1, 0)       # -0001-12-31T23:30-01:00 = 0000-01-01T00:30Z
+            else:
+                n_, sod_, z_ = R.year_start(m, 10000), 1800, (1, 0)         # 10000-01-01T00:30+01:00 = 9999-12-31T23:30Z
+            rep_ = rnd.choice(["cal", "ord"])
+            yy_, a_, b_ = R.date_of(m, rep_, n_)
+            from harness.common import tp_rec
+            p = tp_rec(rep_, yy_, a_, b_, sod=sod_, zh=z_[0], zm=z_[1], xd=2)
+            fm = [DATES[rep_][0] + "Thh:mm:ssZ", DATES[rep_][1] + "ThhmmssZ"]
+            inner = False
         case = {"mode": sp, "p": p, "fmts": fm}
+        if p.get("xd") and rnd.random() < 0.3:
+            case["own"] = True       # the point also carries its own dump format with the +X year field
         if inner and p["prec"] == "hms" and not p.get("dec") and p["hh"] < 24 and rnd.random() < 0.12:
             case["also"] = rnd.randrange(10 ** 6)
         yield case
